@@ -402,6 +402,45 @@ func genHostile(h *H) {
 		txt, _ := saltpack.Armor62Seal(b, saltpack.MessageTypeEncryption, "")
 		h.Run(Case{Op: "hostile", A: map[string]string{"input": hx([]byte(txt)), "keys": "_", "signers": "_", "ring": "0", "mut": "armored-length-bomb-" + strconv.Itoa(i)}})
 	}
+	// frame sentences with every number of words: each genuine armored message (with and without a brand) with
+	// every subset of header words, and every subset of footer words, deleted, and with one word doubled
+	for _, p := range h.producers() {
+		at := map[string]saltpack.MessageType{"enc": saltpack.MessageTypeEncryption, "sc": saltpack.MessageTypeEncryption,
+			"att": saltpack.MessageTypeAttachedSignature, "det": saltpack.MessageTypeDetachedSignature}[p.name]
+		if p.v != "2.0" {
+			continue
+		}
+		for _, brand := range []string{"", "KB"} {
+			txt, _ := saltpack.Armor62Seal(p.wire, at, brand)
+			parts := strings.Split(txt, ".")
+			if len(parts) < 3 {
+				continue
+			}
+			for _, k := range []int{0, 2} {
+				ws := strings.Fields(parts[k])
+				var variants [][]string
+				for mask := 1; mask < 1<<uint(len(ws)); mask++ {
+					var v []string
+					for i, w := range ws {
+						if mask&(1<<uint(i)) == 0 {
+							v = append(v, w)
+						}
+					}
+					variants = append(variants, v)
+				}
+				for i := range ws {
+					v := append(append(append([]string{}, ws[:i+1]...), ws[i]), ws[i+1:]...)
+					variants = append(variants, v)
+				}
+				for _, v := range variants {
+					q := append([]string{}, parts...)
+					q[k] = []string{"", " "}[k/2] + strings.Join(v, " ")
+					h.tag("frame-word-sweep")
+					h.Run(Case{Op: "hostile", A: map[string]string{"input": hx([]byte(strings.Join(q, "."))), "keys": keysOf(p), "signers": signersOf(p), "ring": "0", "mut": "frame-word-sweep"}})
+				}
+			}
+		}
+	}
 	// long runs of one character (frame limits, regexp, base-62 big numbers)
 	for _, ch := range []byte{' ', '.', 'z', '>', '\n', 'B'} {
 		for _, l := range []int{8191, 8192, 8193, 100000} {
